@@ -28,8 +28,8 @@ Print Assumptions C26_needs_iff_refused.
    user password -- blanks, tabs, newlines, NUL bytes, any length -- and every (wrong or empty) owner
    password; "no credentials supplied" is Generated.noCredentialsSupplied, extracted from the source. *)
 Theorem C26_user_password_access : forall mode e m, In (mode, (e, m)) perm_table ->
-  forall opw upw P R, upw <> [] ->
-  checkForEncryption true false true true opw upw mode P R =
+  forall ownerMatches opw upw P R, upw <> [] -> validateOwnerPassword R opw ownerMatches = false ->
+  checkForEncryption true ownerMatches true true opw upw mode P R =
     if rejectsEncrypted mode then EncryptedUnsupported
     else if needsOwnerAndUserPassword mode then OwnerRequired
     else if (negb (e =? 0) && denies_extract P R) || (negb (m =? 0) && denies_modify P R)
@@ -37,10 +37,30 @@ Theorem C26_user_password_access : forall mode e m, In (mode, (e, m)) perm_table
 Proof. exact user_password_access. Qed.
 Print Assumptions C26_user_password_access.
 
+(* The owner is not authenticated (the hypothesis above holds) whenever the supplied owner password does
+   not match, and -- revision 5 and 6 -- whenever NO owner password is supplied, even if the document's
+   owner password is the empty string (ownerMatches = true).  Hence: no owner password supplied =>
+   the permission check is consulted. *)
+Theorem C26_no_owner_password_consults_permissions : forall mode e m, In (mode, (e, m)) perm_table ->
+  forall ownerMatches upw P R, R = 5 \/ R = 6 -> upw <> [] ->
+  checkForEncryption true ownerMatches true true [] upw mode P R =
+    if rejectsEncrypted mode then EncryptedUnsupported
+    else if needsOwnerAndUserPassword mode then OwnerRequired
+    else if (negb (e =? 0) && denies_extract P R) || (negb (m =? 0) && denies_modify P R)
+         then Denied else Proceed.
+Proof. exact no_owner_password_consults_permissions. Qed.
+Print Assumptions C26_no_owner_password_consults_permissions.
+
+Theorem C26_wrong_owner_password_not_authenticated : forall R opw,
+  validateOwnerPassword R opw false = false.
+Proof. exact wrong_owner_password_not_authenticated. Qed.
+Print Assumptions C26_wrong_owner_password_not_authenticated.
+
 (* A matching owner password is never answered with ErrPermissionDenied — any command mode (any
    integer), any P, R, encrypted or not. *)
-Theorem C26_owner_never_denied : forall encrypted userOK permsOK opw upw mode P R,
-  checkForEncryption encrypted true userOK permsOK opw upw mode P R <> Denied.
+Theorem C26_owner_never_denied : forall encrypted ownerMatches userOK permsOK opw upw mode P R,
+  validateOwnerPassword R opw ownerMatches = true ->
+  checkForEncryption encrypted ownerMatches userOK permsOK opw upw mode P R <> Denied.
 Proof. exact owner_never_denied. Qed.
 Print Assumptions C26_owner_never_denied.
 
@@ -64,8 +84,9 @@ Print Assumptions C26_every_mode_classified_partial.
 (* ... and therefore: for every command mode outside that list, whenever the specification says the
    document denies what the command does, user-password-only access does not proceed. *)
 Theorem C26_spec_refusal_partial : forall m, In m all_modes -> ~ In m known_unclassified ->
-  forall opw upw P R, upw <> [] -> spec_must_refuse (spec_kind m) P R = true ->
-  checkForEncryption true false true true opw upw m P R <> Proceed.
+  forall ownerMatches opw upw P R, upw <> [] -> validateOwnerPassword R opw ownerMatches = false ->
+  spec_must_refuse (spec_kind m) P R = true ->
+  checkForEncryption true ownerMatches true true opw upw m P R <> Proceed.
 Proof. exact spec_refusal_partial. Qed.
 Print Assumptions C26_spec_refusal_partial.
 
@@ -94,5 +115,8 @@ Example C26_nonvacuous :
   (* a blank (whitespace-only) user password is a supplied credential; no password at all is not *)
   /\ checkForEncryption true false true true [] [32%N; 9%N; 10%N] CM_ROTATE (-3901) 4 = Denied
   /\ checkForEncryption true false true true [] [] CM_ROTATE (-3901) 4 = Proceed
+  (* AES-256 document whose owner password is empty (ownerMatches = true), opened with the user password only *)
+  /\ checkForEncryption true true true true [] [117%N] CM_ROTATE (-3901) 6 = Denied
+  /\ checkForEncryption true true true true [111%N] [117%N] CM_ROTATE (-3901) 6 = Proceed
   /\ forallb (fun m => negb (kind_is_row (spec_kind m))) all_modes = true.
 Proof. vm_compute. repeat split; reflexivity. Qed.
